@@ -29,7 +29,8 @@ CHECKS = {
             ("R-CONSTASSERT", "r_assert", "run_constassert", ("quick", "thorough")),
             ("R-TMP.modes", "r_tmp", "run_modes", ("quick", "thorough")),
             ("R-ABI", "r_abi", "run", ("quick", "thorough")),
-            ("R-CONTRACT", "r_contract", "run", ("thorough",))],
+            ("R-CONTRACT", "r_contract", "run", ("thorough",)),
+            ("R-FATTAB", "r_fattab", "run", ("quick", "thorough"))],
 }
 
 # rule id -> (module, function) used by the mutation self-tests
@@ -51,6 +52,7 @@ RULES = {
     "R-CXXALIAS": ("r_cxx", "run"),
     "R-RANDCOV": ("r_rand", "run"),
     "R-PRINTF": ("r_printf", "run"),
+    "R-FATTAB": ("r_fattab", "run"),
     "R-ALIAS": ("r_alias", "run"),
     "R-ALIAS.mem": ("r_alias", "run_mem"),
     "R-TABIDX.digit": ("r_tables", "run_digit_index"),
@@ -164,6 +166,7 @@ ASSUMPTIONS = {
     "R-PRINTF": ["the snprintf clause recognises the backend's own idioms: n = MIN (d->size - 1, x), avail = d->size, tests d->size > 1 / >= 1",
                  "asprintf buffer: buf holds `alloc` bytes (struct invariant used by R-ALLOC.size)",
                  "conversion-character coverage and byte-identity with the C library are not decided"],
+    "R-FATTAB": ["the four lists are in C, a C initialiser, m4 and shell: extracted with anchored patterns and compared with each other only"],
     "R-ALIAS": ["alias model of the manual: an output may be the same variable as any input of its type, two outputs are distinct, locals alias nothing; "
                 "static helpers inherit the aliasing their call sites in the unit can produce",
                 "public callees handle overlap between their own operands (the same rules applied to them)",
